@@ -26,7 +26,8 @@ COQ = dict(imports=["Model.BatchFail", "Spec.C11"], in_ty="input", out_ty="outpu
 THEOREMS = ["C11_decider_sound", "C11_no_row_lost", "C11_original_untouched", "C11_tmp_gone_partial",
             "C11_tmp_gone_refuted", "C11_tmp_resurrected", "C11_natural_copy_failure", "C11_others_untouched",
             "C11_txddl_rollback_restores", "C11_holds_partial", "C11_no_row_lost_obs",
-            "C11_exception_class_irrelevant", "C11_transactional_ddl_irrelevant"]
+            "C11_exception_class_irrelevant", "C11_transactional_ddl_irrelevant", "C11_fault_table", "C11_decider_complete",
+            "C11_gather_failure_point"]
 TRUSTED = [
     "the database is SQLite's, not Alembic's: its behaviour enters as the statement semantics of Model/BatchFail.v "
     "(apply_stmt: tables as name -> (definition, rows, indexes); NOT NULL / UNIQUE / CHECK(col >= k) enforced by INSERT..SELECT; "
@@ -43,14 +44,16 @@ TRUSTED = [
 ]
 ASSUME = ["a statement made to fail raises before it reaches the database (fault injection in before_cursor_execute); "
           "naturally failing statements are atomic (SQLite statement journal)",
+          "besides statement failures one Python-level failure point is modelled: _gather_indexes_from_both_tables raising KeyError (a new index on a "
+          "column the new table does not have) after the rename and outside the try (PRaise; gather_ok; theorem C11_gather_failure_point)",
           "values are NULL, integers and text; CHECK constraints are of the form col >= k on integer columns"]
 RULE = ("scenario = table t (INTEGER PRIMARY KEY id + 2-4 INTEGER/TEXT columns, optional NOT NULL/UNIQUE/CHECK, 0-2 indexes) with 0-5 rows "
         "(NULLs, duplicates, negative numbers, quotes/unicode) + a second table p with an index + 1-2 batch operations "
         "(set NOT NULL, add UNIQUE, add CHECK, rename column, drop column, add column [NOT NULL with/without default], create [unique] index "
-        "[with a taken name], drop index); hand-written scenarios (incl. a 50-character table name whose temporary name is the name itself, "
+        "[with a taken name / on a column dropped by the same batch or never there], drop index); hand-written scenarios (incl. a 50-character table name whose temporary name is the name itself, "
         "a 45-character name that is truncated, a left-over temporary table) + seeded random ones; every scenario is crossed with "
-        "8 transaction settings (pysqlite x {own scope, caller rollback, caller commit} x {no open transaction, DML before}, transactional DDL x "
-        "{own, rollback, commit}) and with EVERY single fault position 0..n+1 of the statement sequence (n = 4 + number of indexes), no fault, "
+        "11 transaction settings (pysqlite x {own scope, caller rollback, caller commit} x {no open transaction, DML before}, transactional DDL x "
+        "{own, rollback, commit}, autocommit connection [isolation_level=AUTOCOMMIT] x {own, rollback, commit}) and with EVERY single fault position 0..n+1 of the statement sequence (n = 4 + number of indexes), no fault, "
         "and the double faults that also hit the handler's DROP; each injected fault raises either an Exception subclass or a BaseException that "
         "is not an Exception (subclasses of KeyboardInterrupt / SystemExit / asyncio.CancelledError), and the context is configured with "
         "transactional_ddl unset / True / False: these two dimensions are fully crossed on the first hand-written scenario(s) and rotated "
@@ -127,6 +130,12 @@ def fixed_scenarios():
     s = base_scn("t" * 45); s["ops"] = [["notnull", "a"]]; yield s               # temp name truncated to 50
     s = base_scn("t" * 45); s["ops"] = [["rename", "b", "bb"]]; s["indexes"] = []; yield s
     s = base_scn(); s["indexes"] = []; s["ops"] = [["notnull", "b"]]; yield s     # no NULL in b: succeeds
+    # Python-level failure point: a new index names a column the new table does not have -> KeyError in
+    # _gather_indexes_from_both_tables, after the rename, outside the try
+    s = base_scn(); s["indexes"] = [dict(name="ix_a", cols=["a"], unique=False)]
+    s["ops"] = [["drop_col", "b"], ["create_index", "ix_new", ["b"], False]]; yield s                     # dropped by the same batch
+    s = base_scn(); s["ops"] = [["create_index", "ix_new", ["nope"], False]]; yield s                     # never there
+    s = base_scn(); s["ops"] = [["create_index", "ix_ok", ["a"], False], ["create_index", "ux_bad", ["a", "nope"], True]]; yield s
 
 
 def rand_scenario(rnd):
@@ -199,6 +208,9 @@ def rand_scenario(rnd):
             ops.append(["add_col", "z%d" % len(ops), rnd.choice(["int", "text"]), rnd.random() < 0.6, rnd.choice([None, None, "7"])])
         elif kind == "create_index" and free:
             cs = rnd.sample(free, min(len(free), rnd.randint(1, 2))); touched |= set(cs)
+            if rnd.random() < 0.2:                                  # a column the new table will not have
+                gone = [o[1] for o in ops if o[0] == "drop_col"]
+                cs = cs[:1] + [rnd.choice(gone + ["nope"])]
             ops.append(["create_index", rnd.choice(["ixn%d" % len(ops), "ixn%d" % len(ops), "ix_p"]), cs, rnd.random() < 0.4])
         elif kind == "drop_index" and indexes and not any(o[0] == "drop_index" for o in ops):
             ops.append(["drop_index", indexes[0]["name"]])
@@ -210,7 +222,8 @@ def rand_scenario(rnd):
 
 SETTINGS = [("pysqlite", False, "own"), ("pysqlite", False, "rollback"), ("pysqlite", False, "commit"),
             ("pysqlite", True, "rollback"), ("pysqlite", True, "commit"),
-            ("txddl", False, "own"), ("txddl", False, "rollback"), ("txddl", False, "commit")]
+            ("txddl", False, "own"), ("txddl", False, "rollback"), ("txddl", False, "commit"),
+            ("autocommit", False, "own"), ("autocommit", False, "rollback"), ("autocommit", False, "commit")]
 
 
 def n_index_stmts(scn):
@@ -237,7 +250,7 @@ def cross(scn, light=False, full=False, start=0):
                 h = dict(scn)
                 # a double fault: the first position raises class c, the handler's position the next class
                 fc = [FCLS_ORDER[(FCLS_ORDER.index(c) + j) % 4] for j in range(len(fs))]
-                h.update(kind=kind, pre=pre, scope=scope, faults=fs, fcls=fc, tddl=td)
+                h.update(kind=kind, pre=pre, scope=scope, faults=fs, fcls=fc, tddl=td, tpm=bool((cnt // 3) % 2))
                 yield h
             cnt += 1
 
@@ -246,7 +259,7 @@ def generate(tier, seed):
     rnd = random.Random(seed * 7919 + 11)
     for k, s in enumerate(fixed_scenarios()):
         yield from cross(s, full=(k == 0 or (tier != "quick" and k < 4)), start=k)
-    nrand = 16 if tier == "quick" else 200
+    nrand = 12 if tier == "quick" else 200
     for k in range(nrand):
         yield from cross(rand_scenario(rnd), start=5 * k)
 
@@ -292,7 +305,7 @@ def derive(scn):
               unique=[[pos[c["name"]] for c in cols if c.get("pk")]] + [[pos[x] for x in u] for u in uniques],
               check=[(pos[c], lo) for c, lo in checks])
     tr = [("col", c["src"]) if c["src"] is not None else ("const", c.get("const")) for c in cols]
-    idx = lambda i: dict(name=i["name"], cols=[pos[x] for x in i["cols"]], unique=i["unique"])
+    idx = lambda i: dict(name=i["name"], cols=[pos.get(x, len(cols) + 3) for x in i["cols"]], unique=i["unique"])   # unknown column: a position the new table does not have
     return nd, tr, [idx(i) for i in indexes], [idx(i) for i in new_indexes]
 
 
@@ -367,7 +380,7 @@ def obsc(ob):
 
 
 ERRC = {None: "None", "Injected": "(Some EInjected)", "Interrupt": "(Some EInterrupt)", "IntegrityError": "(Some EIntegrity)",
-        "OperationalError": "(Some EOperational)"}
+        "OperationalError": "(Some EOperational)", "other:KeyError": "(Some EPython)"}
 
 TAG_OLD, TAG_NEW, TAG_P, TAG_LEFT, TAG_UNKNOWN = 10, 11, 12, 13, 99
 P_DEF = dict(notnull=[0], unique=[[0]], check=[])
@@ -496,8 +509,8 @@ def run_case(h):
             with e0.begin() as c0:
                 old_body = body_of(c0.exec_driver_sql("select sql from sqlite_master where name=?", (tname,)).scalar())
                 op0 = Operations(MigrationContext.configure(c0))
-                with op0.batch_alter_table(tname, recreate="always") as b0:
-                    apply_ops(sa, b0, scn)
+                with op0.batch_alter_table(tname, recreate="always") as b0:      # (the table's body does not depend on new indexes)
+                    apply_ops(sa, b0, dict(scn, ops=[o for o in scn["ops"] if o[0] != "create_index"]))
                 new_body = body_of(c0.exec_driver_sql("select sql from sqlite_master where name=?", (tname,)).scalar())
                 if any(r[0].startswith(TMPP) for r in c0.exec_driver_sql("select name from sqlite_master where type='table'")):
                     raise RuntimeError("dry run left a temporary table")
@@ -506,6 +519,8 @@ def run_case(h):
         path = os.path.join(td, "db.sqlite")
 
         def mk_engine():
+            if h["kind"] == "autocommit":
+                return sa.create_engine("sqlite:///" + path, isolation_level="AUTOCOMMIT")
             e = sa.create_engine("sqlite:///" + path)
             if h["kind"] == "txddl":
                 @event.listens_for(e, "connect")
@@ -582,6 +597,8 @@ def run_case(h):
             armed[0] = True
             try:
                 opts = {} if h.get("tddl") is None else {"transactional_ddl": bool(h["tddl"])}
+                if h.get("tpm"):
+                    opts["transaction_per_migration"] = True
                 op = Operations(MigrationContext.configure(conn, opts=opts))
                 with op.batch_alter_table(tname, recreate="always") as b:
                     apply_ops(sa, b, scn)
@@ -633,20 +650,20 @@ def run_case(h):
     if leftover:
         db.append((tmpn, tablec(TAG_LEFT, LEFT_DEF, [[42]], [])))
     fpairs = list(zip(h["faults"], h.get("fcls") or ["exc"] * len(h["faults"])))
-    cin = "(mkIn %s %s %s %s %s %s %s %s %s %s)" % (
-        {"pysqlite": "Pysqlite", "txddl": "TxDDL"}[h["kind"]], cf.boolean(h["pre"]),
+    cin = "(mkIn %s %s %s %s %s %s %s %s %s %s %s)" % (
+        {"pysqlite": "Pysqlite", "txddl": "TxDDL", "autocommit": "AutoCommit"}[h["kind"]], cf.boolean(h["pre"]),
         cf.lst("(%s, Some %s)" % (cf.string(n), t_) for n, t_ in db), cf.string(tname),
         defc(TAG_OLD if same_def else TAG_NEW, nd),
         cf.lst("(TCol %s)" % nat(x) if k == "col" else "(TConst %s)" % val(x) for k, x in tr),
         cf.lst(idxc(i) for i in ixs),
         cf.lst("(%s, %s)" % (nat(k), "EInjected" if c == "exc" else "EInterrupt") for k, c in fpairs),
         {"own": "OwnScope", "rollback": "(Caller Rollback)", "commit": "(Caller Commit)"}[h["scope"]],
-        "None" if h.get("tddl") is None else "(Some %s)" % cf.boolean(h["tddl"]))
+        "None" if h.get("tddl") is None else "(Some %s)" % cf.boolean(h["tddl"]), cf.boolean(bool(h.get("tpm"))))
     errc = ERRC.get(err, "(Some EOther)")
     cout = "(mkOut %s %s %s %s)" % (errc, cf.lst(skindc(k) for k in log), obsc(mid), obsc(final))
     out = dict(err=err, log=[list(k) for k in log], mid=mid, final=final)
     shape = "%s%s-%s-tddl%s-%s-%s" % (h["kind"], "+pre" if h["pre"] else "", h["scope"],
-                                      {None: "U", True: "T", False: "F"}[h.get("tddl")],
+                                      {None: "U", True: "T", False: "F"}[h.get("tddl")] + ("p" if h.get("tpm") else ""),
                                       "nofault" if not h["faults"] else "f%d%s" % (len(h["faults"]), (h.get("fcls") or ["exc"])[0]),
                                       (err or "ok").split(":")[0])
     return dict(cin=cin, cout=cout, out=out, nontrivial=bool(err is not None and scn["rows"]), shape=shape)
@@ -678,3 +695,25 @@ def classify(h, out):
     if tmp["rows"]:
         return None
     return FINDING
+
+
+def canary(h, rec):
+    """corrupted final states of a FAILED batch that the decider must reject: the table and its copy both gone, a row lost,
+    (failure before the rename) an index of the original changed, the temporary table left behind after a clean handler"""
+    out = rec["out"]
+    if out.get("err") is None:
+        return []
+    tname, tmpn = h["tname"], calc_tmp(h["tname"])
+    log, mid, fin = out["log"], out["mid"], out["final"]
+    errc = ERRC.get(out["err"], "(Some EOther)")
+    mk = lambda f: "(mkOut %s %s %s %s)" % (errc, cf.lst(skindc(tuple(k)) for k in log), obsc(mid), obsc(f))
+    bad = [mk({n: t for n, t in fin.items() if n not in (tname, tmpn)})]
+    if h["rows"]:
+        bad.append(mk({n: (dict(t, rows=t["rows"][1:]) if n in (tname, tmpn) else t) for n, t in fin.items()}))
+    early = not any(k[0] == "rename" for k in log)
+    if early and tname in fin:
+        bad.append(mk({n: (dict(t, idx=list(t["idx"]) + ["ix_canary"]) if n == tname else t) for n, t in fin.items()}))
+    clean = all(j not in h["faults"] for j, k in enumerate(log) if k[0] == "drop" and k[1] == tmpn)
+    if early and clean and not h.get("leftover") and tmpn != tname and tmpn not in fin and tname in fin:
+        bad.append(mk(dict(fin, **{tmpn: dict(tag=TAG_NEW, rows=[], idx=[])})))
+    return bad
